@@ -26,17 +26,7 @@ Proof. intros HL. unfold vmul. rewrite map2_length. lia. Qed.
 (* ---- Device / CDevice / PVDevice ---- *)
 Lemma gen_device_cost n s p : Device_cost (A:=R) n s p = dev_cost s p.
 Proof. reflexivity. Qed.
-Lemma gen_device_deriv n s p : Device_deriv (A:=R) n s p = dev_deriv n p.
-Proof. reflexivity. Qed.
-Lemma gen_device_hess n s : Device_hess (A:=R) n s = dev_hess n.
-Proof. reflexivity. Qed.
 Lemma gen_cdevice_cost n a b s p : CDevice_cost (A:=R) n a b s p = cdev_cost a b s p.
-Proof. reflexivity. Qed.
-Lemma gen_cdevice_deriv n a b s p : CDevice_deriv (A:=R) n a b s p = cdev_deriv n a p.
-Proof.
-  first [reflexivity | unfold CDevice_deriv, cdev_deriv, vadd, vscale; f_equal; apply map_ext; intros x; numR; ring].
-Qed.
-Lemma gen_cdevice_hess n a b s : CDevice_hess (A:=R) n a b s = dev_hess n.
 Proof. reflexivity. Qed.
 Lemma gen_pvdevice_costv n s p : vsum (PVDevice_costv (A:=R) n s p) = dev_cost s p.
 Proof. reflexivity. Qed.
@@ -56,10 +46,6 @@ Proof.
   change (map2 (fun x y => x * y)%num s p) with (vmul s p).
   rewrite (spread_sum _ s p n Hs Hp). destruct n; [lia|]. reflexivity.
 Qed.
-Lemma gen_idevice_deriv n a b c bnd s p : IDevice_deriv (A:=R) n a b c bnd s p = idev_deriv a b c bnd s p.
-Proof. reflexivity. Qed.
-Lemma gen_idevice_hess n a b c bnd s : IDevice_hess (A:=R) n a b c bnd s = idev_hess a b c bnd s.
-Proof. reflexivity. Qed.
 Lemma gen_idevice2_cost n pl ph bnd s p : length s = n -> length p = n -> (0 < n)%nat ->
   IDevice2_cost (A:=R) n pl ph bnd s p = idev2_cost pl ph bnd s p.
 Proof.
@@ -67,10 +53,6 @@ Proof.
   change (map2 (fun x y => x * y)%num s p) with (vmul s p).
   rewrite (spread_sum _ s p n Hs Hp). destruct n; [lia|]. reflexivity.
 Qed.
-Lemma gen_idevice2_deriv n pl ph bnd s p : IDevice2_deriv (A:=R) n pl ph bnd s p = idev2_deriv pl ph bnd s p.
-Proof. reflexivity. Qed.
-Lemma gen_idevice2_hess n pl ph bnd s : IDevice2_hess (A:=R) n pl ph bnd s = idev2_hess pl ph bnd s.
-Proof. reflexivity. Qed.
 
 (* ---- SDevice: the three cost terms ---- *)
 Definition sq_of c1 c2 c3 cap dep st e su : sparams R := Build_sparams c1 c2 c3 cap dep st 0 e su None None.
@@ -161,25 +143,3 @@ Proof.
 Qed.
 Lemma gen_gdevice_cost n g s p : length s = n -> length p = n -> GDevice_cost (A:=R) n g s p = gdev_cost g s p.
 Proof. intros Hs Hp. first [reflexivity | unfold GDevice_cost]. now rewrite (gen_gdevice_costv n g s p Hs Hp). Qed.
-Lemma gen_gdevice_deriv n g s p : length s = n -> length p = n -> GDevice_deriv (A:=R) n g s p = gdev_deriv g s p.
-Proof.
-  intros Hs Hp. first [reflexivity | unfold GDevice_deriv, gk_d1, gdev_deriv].
-  change (map2 (fun x y => x - y)%num) with (vsub (A:=R)).
-  apply list_eq_nth.
-  - rewrite vsub_length, (idx_map_length (fun i v => horner (pderiv (gpoly g i)) v)), map_length.
-    rewrite (idx_map_length (fun i x => nth i p 0 - horner (pderiv (gpoly g i)) (- x))). lia.
-  - intros k Hk. rewrite vsub_length, (idx_map_length (fun i v => horner (pderiv (gpoly g i)) v)), map_length in Hk.
-    rewrite nth_vsub by (rewrite ?(idx_map_length (fun i v => horner (pderiv (gpoly g i)) v)), ?map_length; lia).
-    rewrite (gk_nth (fun i v => horner (pderiv (gpoly g i)) v)) by lia.
-    rewrite (nth_map_idx (fun i x => nth i p 0 - horner (pderiv (gpoly g i)) (- x))) by lia. reflexivity.
-Qed.
-Lemma gen_gdevice_hess n g s : GDevice_hess (A:=R) n g s = gdev_hess g s.
-Proof.
-  first [reflexivity | unfold GDevice_hess, gk_d2, gdev_hess]. f_equal.
-  apply list_eq_nth.
-  - rewrite (idx_map_length (fun i v => horner (pderiv (pderiv (gpoly g i))) v)), map_length.
-    now rewrite (idx_map_length (fun i x => horner (pderiv (pderiv (gpoly g i))) (- x))).
-  - intros k Hk. rewrite (idx_map_length (fun i v => horner (pderiv (pderiv (gpoly g i))) v)), map_length in Hk.
-    rewrite (gk_nth (fun i v => horner (pderiv (pderiv (gpoly g i))) v)) by lia.
-    now rewrite (nth_map_idx (fun i x => horner (pderiv (pderiv (gpoly g i))) (- x))) by lia.
-Qed.
